@@ -50,6 +50,7 @@ def run(ctx):
         ctx.guard(no_late_none, ctx, cfg, fs)
         ctx.guard(marker_then_decide, ctx, cfg, fs)
         ctx.guard(verbatim_matching, ctx, cfg, fs)
+        ctx.guard(short_exact, ctx, cfg, fs)
         ctx.guard(last_index_tests, ctx, cfg, fs)
         ctx.guard(hide, ctx, cfg, fs)
         ctx.guard(comp_rebuild, ctx, cfg, fs)
@@ -180,6 +181,50 @@ def verbatim_matching(ctx, cfg, fs):
         b = ctx.look(fs.one(rx))
         hits = sorted({short(c.name) for x in fs.family(b) for c in x.calls() if c.is_(*NORMALISING)})
         ctx.ob('E.hints', '%s:compares-typed-word-verbatim' % short(b.path), not hits, '%s compares the typed word as it is (normalising calls: %s)' % (short(b.path), hits or 'none'), where=b.where(), cfg=cfg)
+
+def _emptiness_tested(fam, x, dest):
+    seen, sinks = flows_to(x, dest[0])
+    for (bb, k, kind, p) in sinks:
+        if kind == 'call':
+            c = Call(x, bb, p)
+            if c.is_(r'str>?::is_empty$') or any(a[0] == 'c' and 'is_empty' in str(a[1].get('fn', '')) for a in c.args):
+                return True
+    if 0 in seen and '{closure' in x.path:
+        # handed back by a closure: the combinator that received the closure (and_then ..) must have its result tested
+        for y in fam:
+            for c2 in y.calls():
+                if c2.dest and any(a[0] != 'c' and y.local_ty(a[1][0]).startswith('{closure@') for a in c2.args) and y.local_ty(c2.dest[0]).startswith('std::option::Option<&') \
+                        and _emptiness_tested(fam, y, c2.dest):
+                    return True
+    return False
+
+def short_exact(ctx, cfg, fs):
+    """a candidate either EXTENDS a typed long/command prefix or is the preferred spelling of an EXACTLY typed short name.  In the two
+    matchers: (1) every test of the typed word against a non-constant char (the short name) is strip_prefix followed by an emptiness
+    test of the rest - never starts_with / contains / ends_with; (2) every prefix test between two strings has the NAME as receiver
+    and the typed word as pattern (the name extends what was typed, not the other way round)."""
+    for rx in VERBATIM_MATCHERS:
+        b = ctx.look(fs.one(rx))
+        fam = fs.family(b)
+        bad = []; n = 0
+        for x in fam:
+            for c in x.calls():
+                m = re.search(r'str>?::(\w+)::<char>$', c.full)
+                if m and len(c.args) >= 2 and c.args[1][0] != 'c':
+                    n += 1
+                    if m.group(1) != 'strip_prefix':
+                        bad.append('%s with the short name at %s (anything that merely begins with / contains the letter would match)' % (m.group(1), x.where(c.bb)))
+                    elif not _emptiness_tested(fam, x, c.dest):
+                        bad.append('the rest after strip_prefix(short name) at %s is not tested for emptiness' % x.where(c.bb))
+                m = re.search(r'str>?::(starts_with|ends_with|contains)::<&str>$', c.full)
+                if m and len(c.args) >= 2 and c.args[1][0] != 'c':
+                    n += 1
+                    # the receiver must not be the typed word
+                    rs0 = provenance(x, c.args[0], c.bb, 'term')
+                    if m.group(1) != 'starts_with' or (rs0 and all(r.kind == 'param' and r.what == 'arg' and '{closure' not in x.path for r in rs0)):
+                        bad.append('%s at %s has the typed word as receiver (the NAME must extend the typed word)' % (m.group(1), x.where(c.bb)))
+        ctx.ob('E.hints', '%s:short-name-exact-long-name-extends' % short(b.path), n >= 2 and not bad,
+               '%d name test(s) in %s: %s' % (n, short(b.path), '; '.join(bad) or 'short names match exactly, long names by prefix of the name'), where=b.where(), cfg=cfg)
 
 def no_late_none(ctx, cfg, fs):
     b = ctx.look(fs.one(r'complete_gen::.*check_complete$'))
@@ -347,6 +392,12 @@ def hide(ctx, cfg, fs):
                 c = Call(b, bb, p)
                 if not c.is_(r'swap_comps_with$'):
                     uses.append(short(c.name))
+        if nm == 'ParseGroupHelp' and ok:
+            # a group wrapper only labels what was collected inside: whether the inner parser succeeded or failed, its hints go back
+            hb = [bb for (bb, k, kind, p) in sinks if kind == 'call' and not Call(b, bb, p).is_(r'swap_comps_with$')]
+            leaks = [r_ for r_ in b.return_blocks() if ev[0].target is not None and r_ in reachable_edges(b, ev[0].target, avoid=hb)]
+            ctx.ob('H.hide', '%s:handed-back-on-every-exit' % nm, bool(hb) and not leaks,
+                   '%s: every return after the inner eval passes the call that hands the collected hints back (success and failure alike): %d return(s) bypass it' % (nm, len(leaks)), where=b.where(), cfg=cfg)
         if hands_back:
             ctx.ob('H.hide', '%s:stash-handed-back' % nm, bool(uses), '%s hands the items collected inside back to the completion state (%s)' % (nm, sorted(set(uses))), where=b.where(), cfg=cfg)
         else:
